@@ -171,6 +171,23 @@ theorem pager_scroll_body_eq_model (segs : List (List Pager.Ch)) (s : Pager.St) 
     runPager genB genB.pagerScrollUp segs s w h fe = some (Pager.scrollUp s, blank w h) := by
   rw [gen_bodies_parsed]; exact WidExec.pscroll_run segs s w h fe ht
 
+/-- The interpreter's pointer semantics is the real one (not a value copy): a variant of `Layout` that appends every
+    character to the line and the line to `m.lines` WITHOUT replacing `l` by a fresh `&line{}` leaves the SAME line object
+    in `m.lines` twice — both entries show both characters, as in Go. -/
+example :
+    (match exec ⟨0, 0, [[⟨[97], 1⟩, ⟨[98], 1⟩]], noCall⟩
+      (parseBody [
+        ⟨0, .assign, (.var "d.lines"), (.lit "[]*line{}")⟩,
+        ⟨0, .define, (.var "v0"), (.un "&" (.lit "line{}"))⟩,
+        ⟨0, .rangeS, (.pair (.var "_") (.var "v2")), (.var "d.Segments")⟩,
+        ⟨1, .rangeS, (.pair (.var "_") (.var "v3")), (.arg (.call (.var "vaxis.Characters")) (.var "v2.Text"))⟩,
+        ⟨2, .define, (.var "v4"), (.arg (.arg (.call (.lit "vaxis.Cell{}")) (.pair (.var "Character") (.var "v3"))) (.pair (.var "Style") (.var "v2.Style")))⟩,
+        ⟨2, .exprS, (.arg (.call (.var "v0.append")) (.var "v4")), .none⟩,
+        ⟨2, .assign, (.var "d.lines"), (.arg (.arg (.call (.var "append")) (.var "d.lines")) (.var "v0"))⟩]) 0 m0 with
+     | .ok (m, _) => m.lines == [[⟨[97], 1⟩, ⟨[98], 1⟩], [⟨[97], 1⟩, ⟨[98], 1⟩]]
+     | .error _ => false) = true := by
+  decide +kernel
+
 /-- One operation of an application on a pager, executed from the regenerated bodies; the text is handed to the widget
     as the segments `seg text` (any segmentation). -/
 def pagerStepBody (seg : List Pager.Ch → List (List Pager.Ch)) (s : Pager.St) : Pager.Op → Option Pager.St
